@@ -489,9 +489,11 @@ package mocrelay
 
 //@ func NewRecvEventUniqueFilterMiddleware$2
 //@   serves C18
+//@   assert @aftercall_newSimpleRecvEventUniqueFilterMiddlewareBase: g(lrusize, callresult.c) == size
 
 //@ func NewSendEventUniqueFilterMiddleware$2
 //@   serves C18
+//@   assert @aftercall_newSimpleSendEventUniqueFilterMiddlewareBase: g(lrusize, callresult.c) == size
 
 // ---------------------------------------------------------------------------------------------
 // C09: merged EVENT / COUNT replies
@@ -1759,6 +1761,7 @@ package mocrelay
 //@   ensures[C20] (old(wantsNIP11(r)) && g(wstatus, refof(w)) != 500) ==> g(wct, refof(w)) == "application/nostr+json"
 //@   ensures[C20] (old(wantsNIP11(r)) && g(wstatus, refof(w)) != 500) ==> g(wacao, refof(w)) == "*"
 //@   ensures[C20] !old(wantsNIP11(r)) ==> g(wstatus, refof(w)) == 400
+//@   ensures[C20] (old(wantsNIP11(r)) && jsonEncodable(box(nip11, any))) ==> g(wstatus, refof(w)) != 500
 
 //@ func ServeMux.ServeHTTP
 //@   serves C20
